@@ -1,3 +1,5 @@
 -- root of the proofs library; one module per property
 import EdxmlProps.Audit
 import EdxmlProps.C01
+import EdxmlProps.C04
+import EdxmlProps.C05
